@@ -44,7 +44,12 @@ def break_refs(text, rng):
 
 def variants(text, rng):
     ns = root_ns(text)
-    rnd = 'urn:x-verif:ns%d' % rng.randint(0, 10 ** 6)
+    k = rng.randint(0, 10 ** 6)
+    # URIs of different lengths and shapes (a loader must not care): short, long, with regex / format characters,
+    # a case variant and an extension of the official ones
+    rnd = rng.choice(['urn:x-verif:ns%d', 'x%d', 'http://example.org/schemas/collada/%d',
+                      'http://www.collada.org/2005/11/COLLADASchema/%d', 'HTTP://WWW.COLLADA.ORG/2008/03/COLLADASCHEMA?v=%d',
+                      'http://example.org/a+b(c)*[d].$^/%d', 'urn:%d:{not-a-brace-pair', 'tag:verif,%d:%%s/%%(x)s']) % k
     others = [u for u in (NS141, NS15) if u != ns] + [rnd]
     if ns == NS141:
         others = [NS15, rnd]
